@@ -35,6 +35,15 @@ pub fn dec(s: &str) -> Option<String> {
     String::from_utf8(out).ok()
 }
 
+/// interval-size bound token: nanoseconds, or `max` / `min` for `TimeDelta::MAX` / `TimeDelta::MIN`
+fn parse_bound(s: &str) -> Option<TimeDelta> {
+    match s {
+        "max" => Some(TimeDelta::MAX),
+        "min" => Some(TimeDelta::MIN),
+        _ => Some(TimeDelta::nanoseconds(s.parse().ok()?)),
+    }
+}
+
 pub struct CtxSpec {
     pub ph: Vec<i64>,
     pub sh: Vec<i64>,
@@ -142,9 +151,13 @@ fn events_of<L: Localize>(l: &L, d: NaiveDate) -> [u32; 4] {
 pub const ITER_CAP: usize = 400;
 
 pub fn exec(op: &str, a: &[&str]) -> Option<String> {
+    // the same operations serve several properties: `c01.sched`, `c02.iter`, … run as `ev.*`
+    let name = op.split_once('.').map(|x| x.1)?;
+    let op = &format!("ev.{name}")[..];
     let (ctx_s, expr_s) = match (op, a.len()) {
         ("ev.sched", 3) | ("ev.state", 3) | ("ev.next", 3) => (a[1], a[2]),
-        ("ev.iter", 4) | ("ev.nextw", 4) => (a[2], a[3]),
+        ("ev.iter", 4) | ("ev.nextw", 4) | ("ev.nextpair", 4) | ("ev.bstate", 4) => (a[2], a[3]),
+        ("ev.bnext", 5) | ("ev.biter", 5) => (a[3], a[4]),
         _ => return None,
     };
     let spec = parse_ctx(ctx_s)?;
@@ -224,7 +237,9 @@ pub fn exec(op: &str, a: &[&str]) -> Option<String> {
             // first interval of iter_range(t, t + horizon): the bounded-work form of next_change
             let t = ast::parse_instant(a[0])?;
             let h: i64 = a[1].parse().ok()?;
-            let to = t.checked_add_signed(Duration::days(h))?;
+            let Some(to) = t.checked_add_signed(Duration::days(h)) else {
+                return Some(format!("{} {} | skip-unrepresentable", ctx_dump(&spec, &[]), astd));
+            };
             let oh = oh.with_context(ctx);
             let lim = std::cmp::min(to, opening_hours::DATE_END);
             let r = catch(|| match oh.iter_range(t, to).next() {
@@ -233,6 +248,67 @@ pub fn exec(op: &str, a: &[&str]) -> Option<String> {
                 Some(iv) => format!("some {} {}", ast::instant(iv.range.end), ast::kind_tok(iv.kind)),
             });
             Some(format!("{} {} | {}", ctx_dump(&spec, &[]), astd, r.unwrap_or_else(|p| p)))
+        }
+        "ev.nextpair" => {
+            // next_change at two instants (C03: identical inside one interval)
+            let t = ast::parse_instant(a[0])?;
+            let t2 = ast::parse_instant(a[1])?;
+            let oh = oh.with_context(ctx);
+            let show = |x: Option<NaiveDateTime>| match x {
+                None => "none".to_string(),
+                Some(c) => format!("some {}", ast::instant(c)),
+            };
+            let r = catch(|| format!("{} / {}", show(oh.next_change(t)), show(oh.next_change(t2))));
+            Some(format!("{} {} | {}", ctx_dump(&spec, &[]), astd, r.unwrap_or_else(|p| p)))
+        }
+        "ev.bnext" => {
+            // C16: exact answer on a window of `h` days (no bound) / next_change with bound `b` ns
+            let t = ast::parse_instant(a[0])?;
+            let b = parse_bound(a[1])?;
+            let h: i64 = a[2].parse().ok()?;
+            let to = t.checked_add_signed(Duration::days(h))?;
+            let lim = std::cmp::min(to, opening_hours::DATE_END);
+            let exact = oh.clone().with_context(Context::default().with_holidays(hol.clone()));
+            let bounded = oh.with_context(Context::default().with_holidays(hol).approx_bound_interval_size(b));
+            let r = catch(|| {
+                let x = match exact.iter_range(t, to).next() {
+                    None => "none".to_string(),
+                    Some(iv) if iv.range.end >= lim => "beyond".to_string(),
+                    Some(iv) => format!("some {}", ast::instant(iv.range.end)),
+                };
+                let y = match bounded.next_change(t) {
+                    None => "none".to_string(),
+                    Some(c) => format!("some {}", ast::instant(c)),
+                };
+                format!("{x} / {y}")
+            });
+            let mut spec_b = spec;
+            spec_b.bound_ns = None;
+            Some(format!("{} {} | {}", ctx_dump(&spec_b, &[]), astd, r.unwrap_or_else(|p| p)))
+        }
+        "ev.biter" => {
+            // bounded stream: must end (cap 5000 items) and never panic; items are not compared
+            let from = ast::parse_instant(a[0])?;
+            let to = ast::parse_instant(a[1])?;
+            let b = parse_bound(a[2])?;
+            let bounded = oh.with_context(Context::default().with_holidays(hol).approx_bound_interval_size(b));
+            let r = catch(|| {
+                let n = bounded.iter_range(from, to).take(5001).count();
+                if n > 5000 { "endless".to_string() } else { format!("ends {n}") }
+            });
+            let mut spec_b = spec;
+            spec_b.bound_ns = None;
+            Some(format!("{} {} | {}", ctx_dump(&spec_b, &[]), astd, r.unwrap_or_else(|p| p)))
+        }
+        "ev.bstate" => {
+            let t = ast::parse_instant(a[0])?;
+            let b = parse_bound(a[1])?;
+            let exact = oh.clone().with_context(Context::default().with_holidays(hol.clone()));
+            let bounded = oh.with_context(Context::default().with_holidays(hol).approx_bound_interval_size(b));
+            let r = catch(|| format!("{} {}", ast::kind_tok(bounded.state(t)), ast::kind_tok(exact.state(t))));
+            let mut spec_b = spec;
+            spec_b.bound_ns = None;
+            Some(format!("{} {} | {}", ctx_dump(&spec_b, &[]), astd, r.unwrap_or_else(|p| p)))
         }
         "ev.next" => {
             let t = ast::parse_instant(a[0])?;
@@ -340,6 +416,10 @@ fn add_ns(t: &str, ns: i64) -> Option<String> {
 }
 
 pub fn gen(tier: &str, rng: &mut Rng, emit: &mut dyn FnMut(String)) {
+    gen_for("ev", tier, rng, emit)
+}
+
+fn gen_all(tier: &str, rng: &mut Rng, emit: &mut dyn FnMut(String)) {
     let thorough = tier == "thorough";
     let cfg = gen_expr::DEFAULT;
     // the suite's own sample expressions, each on a few days
@@ -414,4 +494,278 @@ pub fn gen(tier: &str, rng: &mut Rng, emit: &mut dyn FnMut(String)) {
         }
     }
     emit(format!("#note unbounded next_change calls not sent to the model because of cost: {skipped_slow}"));
+}
+
+/// Does the real code answer this operation within `ms` milliseconds?  The call runs on its own
+/// thread, which is abandoned when it is too slow (next_change may walk day by day to year 9999).
+fn answers_within(l: &str, ms: u64) -> bool {
+    let (tx, rx) = std::sync::mpsc::channel();
+    let line = l.to_string();
+    std::thread::spawn(move || {
+        let _ = run_line(&line);
+        let _ = tx.send(());
+    });
+    rx.recv_timeout(std::time::Duration::from_millis(ms)).is_ok()
+}
+
+fn run_line(l: &str) -> Option<String> {
+    let toks: Vec<&str> = l.split(' ').collect();
+    exec(toks[0], &toks[1..])
+}
+
+fn result_of(l: &str) -> Option<String> {
+    run_line(l).and_then(|r| r.split(" | ").nth(1).map(|x| x.to_string()))
+}
+
+/// Per-property generators (the same executions, emphasis on what each property quantifies over).
+pub fn gen_for(suite: &str, tier: &str, rng: &mut Rng, emit: &mut dyn FnMut(String)) {
+    let thorough = tier == "thorough";
+    let cfg = gen_expr::DEFAULT;
+    let samples = gen_expr::sample_lines();
+    let scale = |q: usize, t: usize| if thorough { t } else { q };
+    match suite {
+        "ev" => gen_all(tier, rng, emit),
+        "c01" => {
+            for line in &samples {
+                for _ in 0..scale(3, 12) {
+                    emit(format!("c01.sched {} {} {}", gen_day(rng), gen_ctx(rng, line, false), enc(line)));
+                }
+            }
+            for _ in 0..scale(3_000, 60_000) {
+                let e = gen_expr::expr(rng, &cfg);
+                let ee = enc(&e);
+                let ctx = gen_ctx(rng, &e, false);
+                let d0 = gen_day(rng);
+                for k in 0..scale(6, 12) as i64 {
+                    let d = if k < 2 { d0 + k } else { gen_day(rng) };
+                    emit(format!("c01.sched {d} {ctx} {ee}"));
+                }
+                if e.contains("sun") || e.contains("dawn") || e.contains("dusk") {
+                    let co = rng.pick(&["48.85:2.35:Europe/Paris", "-33.86:151.2:Australia/Sydney", "64.1:-21.9:Atlantic/Reykjavik", "1.35:103.8:Asia/Singapore", "40.7:-74.0:America/New_York"]);
+                    let c2 = if ctx == "-" { format!("co={co}") } else { format!("{ctx};co={co}") };
+                    emit(format!("c01.sched {} {c2} {ee}", gen_day(rng)));
+                }
+            }
+            if thorough {
+                // every day of two full years for 500 expressions
+                for _ in 0..500 {
+                    let e = gen_expr::expr(rng, &cfg);
+                    let ee = enc(&e);
+                    let ctx = gen_ctx(rng, &e, false);
+                    let y = *rng.pick(&[2020, 2023, 2024, 2027, 2032]);
+                    for d in ymd(y, 1, 1)..ymd(y + 2, 1, 1) {
+                        emit(format!("c01.sched {d} {ctx} {ee}"));
+                    }
+                }
+            }
+        }
+        "c02" | "c17i" => {
+            let op = if suite == "c02" { "c02.iter" } else { "c17.iter" };
+            for line in &samples {
+                let t = gen_instant(rng);
+                if let Some(to) = add_ns(&t, rng.range(1, 60) * 86_400_000_000_000) {
+                    emit(format!("{op} {t} {to} {} {}", gen_ctx(rng, line, false), enc(line)));
+                }
+            }
+            for _ in 0..scale(3_000, 60_000) {
+                let e = gen_expr::expr(rng, &cfg);
+                let t = gen_instant(rng);
+                let len_ns: i64 = match rng.below(10) {
+                    0 => 60_000_000_000,
+                    1 => rng.range(1, 86_400) * 1_000_000_000,
+                    2 | 3 => rng.range(1, 40) * 86_400_000_000_000,
+                    4 | 5 => rng.range(1, 800) * 86_400_000_000_000,
+                    6 => 0,
+                    7 if rng.chance(1, 12) => rng.range(1, 600) * 86_400_000_000_000 * 30,
+                    _ => rng.range(1, 14) * 86_400_000_000_000 + rng.range(0, 86_399) * 1_000_000_000,
+                };
+                if let Some(to) = add_ns(&t, len_ns) {
+                    emit(format!("{op} {t} {to} {} {}", gen_ctx(rng, &e, false), enc(&e)));
+                }
+            }
+        }
+        "c03" => {
+            for _ in 0..scale(3_000, 60_000) {
+                let e = if rng.chance(1, 20) && !samples.is_empty() { rng.pick(&samples).clone() } else { gen_expr::expr(rng, &cfg) };
+                let ee = enc(&e);
+                let ctx = gen_ctx(rng, &e, false);
+                let t = gen_instant(rng);
+                emit(format!("c03.state {t} {ctx} {ee}"));
+                let h = *rng.pick(&[1, 7, 40, 400, 800]);
+                let w = format!("c03.nextw {t} {h} {ctx} {ee}");
+                let res = result_of(&w).unwrap_or_default();
+                emit(w);
+                if res.starts_with("some ") {
+                    emit(format!("c03.next {t} {ctx} {ee}"));
+                    // a second instant inside the same interval must give the same answer
+                    let c = res.split(' ').nth(1).unwrap_or("");
+                    if let (Some(a), Some(b)) = (ast::parse_instant(&t), ast::parse_instant(c)) {
+                        let span = (b - a).num_seconds();
+                        if span > 1 {
+                            let t2 = a + Duration::seconds(rng.range(0, span - 1)) + Duration::nanoseconds(rng.range(0, 999_999_999));
+                            if t2 < b {
+                                emit(format!("c03.nextpair {t} {} {ctx} {ee}", ast::instant(t2)));
+                            }
+                        }
+                    }
+                } else if rng.chance(1, 20) {
+                    let l = format!("c03.next {t} {ctx} {ee}");
+                    if answers_within(&l, 30) {
+                        emit(l);
+                    }
+                }
+            }
+        }
+        "c08" => {
+            let lo = ymd(1900, 1, 1);
+            let hi = ymd(9999, 12, 31) + 1;
+            let special = ["9999", "1900-1901", "Dec 31 +1 day", "week 53", "2020+", "9999 Dec 31", "1900 Jan 1", "Jan 1 -1 day", "24/7", "Mo-Su 00:00-24:00 open", "9998-9999 Dec 31 22:00-26:00", "1900 Jan 1 00:00-01:00", "Dec 31 20:00-30:00", "9999 Dec 20+", "PH"];
+            for i in 0..scale(2_000, 40_000) {
+                let e = if i % 3 == 0 { rng.pick(&special).to_string() } else { gen_expr::expr(rng, &cfg) };
+                let ee = enc(&e);
+                let ctx = if e.contains("PH") { format!("ph={},{},{}", lo - 1, lo, hi - 1) } else { gen_ctx(rng, &e, false) };
+                let day = match rng.below(8) {
+                    0 => lo + rng.range(-400, 3),
+                    1 => hi + rng.range(-3, 400),
+                    2 => rng.range(-95_000_000, 95_000_000),
+                    3 => lo - rng.range(1, 700_000),
+                    4 => hi + rng.range(0, 3_000_000),
+                    5 => lo + rng.range(-2, 2),
+                    6 => hi + rng.range(-2, 2),
+                    _ => gen_day(rng),
+                };
+                let ns = if rng.chance(1, 2) { 0 } else { rng.below(86_400) * 1_000_000_000 };
+                let t = format!("{day}:{ns}");
+                if ast::parse_instant(&t).is_none() {
+                    continue;
+                }
+                emit(format!("c08.state {t} {ctx} {ee}"));
+                // next_change from before 1900 walks until something opens: only with a cheap first probe
+                let probe = format!("c08.iter {t} {} {ctx} {ee}", add_ns(&t, 86_400_000_000_000 * rng.range(1, 900)).unwrap_or_else(|| t.clone()));
+                emit(probe);
+                let l = format!("c08.next {t} {ctx} {ee}");
+                if answers_within(&l, 20) {
+                    emit(l);
+                }
+            }
+        }
+        "c16" => {
+            for _ in 0..scale(3_000, 60_000) {
+                let e = gen_expr::expr(rng, &cfg);
+                let ee = enc(&e);
+                let ctx = gen_ctx(rng, &e, false);
+                let t = gen_instant(rng);
+                // find the exact answer on a window, then place bounds around it
+                let probe = format!("c03.nextw {t} 800 {ctx} {ee}");
+                let res = result_of(&probe).unwrap_or_default();
+                let day = 86_400_000_000_000i64;
+                let mut bounds: Vec<i64> = vec![day, 2 * day, 7 * day, 30 * day, 366 * day, 0, 1, day - 1, -1, -day, -2 * day];
+                if let Some(c) = res.strip_prefix("some ").and_then(|r| r.split(' ').next()).and_then(ast::parse_instant) {
+                    if let Some(a) = ast::parse_instant(&t) {
+                        let delta = (c - a).num_nanoseconds().unwrap_or(0);
+                        bounds.extend([delta - 1, delta, delta + 1, delta + day - 1, delta + day, delta + day + 1, delta / 2, delta + 3 * day].into_iter());
+                    }
+                }
+                for _ in 0..scale(3, 8) {
+                    let b = *rng.pick(&bounds);
+                    let h = b / day + 3;
+                    if h <= 900 {
+                        emit(format!("c16.bnext {t} {b} {h} {ctx} {ee}"));
+                    }
+                    emit(format!("c16.bstate {t} {b} {ctx} {ee}"));
+                }
+            }
+        }
+        "c17" => {
+            let mut c = cfg;
+            c.comments = true;
+            for line in samples.iter().filter(|l| l.contains('"')) {
+                for _ in 0..scale(3, 10) {
+                    emit(format!("c17.sched {} {} {}", gen_day(rng), gen_ctx(rng, line, false), enc(line)));
+                }
+            }
+            for _ in 0..scale(3_000, 60_000) {
+                let mut e = gen_expr::expr(rng, &c);
+                if !e.contains('"') {
+                    // comments on a random subset of rules
+                    e = e.split("; ").map(|r| if rng.chance(1, 2) && !r.contains('"') { format!("{r} \"{}\"", rng.pick(&["a", "b", "c d", "a"])) } else { r.to_string() }).collect::<Vec<_>>().join("; ");
+                }
+                let ee = enc(&e);
+                let ctx = gen_ctx(rng, &e, false);
+                let d0 = gen_day(rng);
+                for k in 0..4 {
+                    emit(format!("c17.sched {} {ctx} {ee}", if k < 2 { d0 + k } else { gen_day(rng) }));
+                }
+                let t = gen_instant(rng);
+                if let Some(to) = add_ns(&t, rng.range(1, 20) * 86_400_000_000_000) {
+                    emit(format!("c17.iter {t} {to} {ctx} {ee}"));
+                }
+            }
+        }
+        "c04" => {
+            // every evaluator entry point at extreme instants and with extreme numbers
+            let extremes_expr = [
+                "Mo[1] +999999999 days", "Jan 1 +999999999 days", "PH +9223372036854775807 days", "PH -9223372036854775807 days",
+                "Jan 1 -999999999 days", "easter +99999999999 days", "Mo +106751991168 days", "1900-9999/65535", "1900-9999/65534", "2020-9999/9999",
+                "(dusk+23:00)-30:00", "(dawn-23:59)-(dusk+23:59)", "00:00-48:00", "24:00-48:00+", "week 1-53/255", "week 53", "9999", "1900",
+                "Feb 29", "Feb 30", "Apr 31", "9999 Dec 31+", "1900 Jan 1-9999 Dec 31", "Dec 31 +1 day", "Jan 1 -1 day", "SH +1 day", "Su[-1] -32 days",
+                "2020-2020/3", "Jan 1-Dec 31", "easter -100 days-easter +100 days", "Mo-Su 00:00-24:00", "24/7 closed || 24/7",
+            ];
+            let mn = ast::day_num(NaiveDate::MIN);
+            let mx = ast::day_num(NaiveDate::MAX);
+            let lo = ymd(1900, 1, 1);
+            let hi = ymd(9999, 12, 31) + 1;
+            let days = [mn, mn + 1, mx - 1, mx, lo - 1, lo, lo + 1, hi - 2, hi - 1, hi, hi + 1, 0, 1, -1, ymd(2024, 2, 29), ymd(2024, 3, 31)];
+            for (i, e) in extremes_expr.iter().enumerate() {
+                let ee = enc(e);
+                let ctx = if e.contains("PH") || e.contains("SH") { format!("ph={},{},{};sh={}", lo, hi - 1, ymd(2024, 5, 1), ymd(2024, 5, 2)) } else { "-".to_string() };
+                for d in days {
+                    if ast::date_of(d).is_none() {
+                        continue;
+                    }
+                    emit(format!("c04.sched {d} {ctx} {ee}"));
+                    for ns in [0u64, 86_399_999_999_999] {
+                        emit(format!("c04.state {d}:{ns} {ctx} {ee}"));
+                        emit(format!("c04.nextw {d}:{ns} 400 {ctx} {ee}"));
+                        if let Some(to) = add_ns(&format!("{d}:{ns}"), 86_400_000_000_000 * 40) {
+                            emit(format!("c04.iter {d}:{ns} {to} {ctx} {ee}"));
+                        }
+                    }
+                }
+                // unbounded next_change only where it answers quickly
+                let l = format!("c04.next {}:0 {ctx} {ee}", ymd(2024, 1, 1) + i as i64);
+                if answers_within(&l, 50) {
+                    emit(l);
+                }
+            }
+            // bounds from 0 to 10^4 years, and the extremes of TimeDelta
+            for _ in 0..scale(300, 3_000) {
+                let e = gen_expr::expr(rng, &cfg);
+                let b = *rng.pick(&["0", "1", "86400000000000", "31536000000000000", "4611686018427387903", "9223372036854775807", "max", "min", "-1", "-86400000000000", "-172800000000000", "-9223372036854775807"]);
+                let t = gen_instant(rng);
+                emit(format!("c04.bstate {t} {b} {} {}", gen_ctx(rng, &e, false), enc(&e)));
+                emit(format!("c04.bnext {t} {b} 40 {} {}", gen_ctx(rng, &e, false), enc(&e)));
+                if let Some(to) = add_ns(&t, 86_400_000_000_000 * 20) {
+                    emit(format!("c04.biter {t} {to} {b} {} {}", gen_ctx(rng, &e, false), enc(&e)));
+                }
+            }
+            for _ in 0..scale(2_000, 40_000) {
+                let mut e = gen_expr::expr(rng, &cfg);
+                // extreme numbers spliced into generated sentences
+                if rng.chance(1, 3) {
+                    e = e.replace(" days", &format!("{} days", rng.pick(&["", "0", "00", "000000", "99999"])));
+                }
+                let ee = enc(&e);
+                let ctx = gen_ctx(rng, &e, true);
+                let d = if rng.chance(1, 3) { *rng.pick(&days) } else { gen_day(rng) };
+                if ast::date_of(d).is_none() {
+                    continue;
+                }
+                emit(format!("c04.sched {d} {ctx} {ee}"));
+                emit(format!("c04.state {d}:{} {ctx} {ee}", rng.below(86_400) * 1_000_000_000));
+                emit(format!("c04.nextw {d}:0 {} {ctx} {ee}", rng.pick(&[1, 40, 400])));
+            }
+        }
+        _ => {}
+    }
 }
